@@ -28,7 +28,82 @@ let bytes_of_hex h =
   let n = (String.length h - 1) / 2 in
   List.init n (fun i -> czi (int_of_string ("0x" ^ String.sub h (1 + 2 * i) 2)))
 
+(* ---------------------------------------------------------------- trace mode
+   c02_driver --trace file: replays the per-operation trace of the harness on the state machine of
+   coq/C02/History.v.  Each Go operation is translated into the model operation it is an instance
+   of (placements, removal, SetByteOrder, resize by name; every change of start / size of a placed
+   signal as OSetGeom, read off the observed view), then the whole predicted state is compared:
+   byte order of the message and of every signal, bits, geometry, layout order, Filters(). *)
+let kind_of_int = function "1" -> KEnum | "2" -> KMux | _ -> KStandard
+let int_of_kind = function KStandard -> 0 | KEnum -> 1 | KMux -> 2
+
+let show_state be bits sigs fs =
+  let b = Buffer.create 512 in
+  Buffer.add_string b (Printf.sprintf "B %d %s %d" (if be then 1 else 0) bits (List.length sigs));
+  List.iter (fun g -> Buffer.add_string b (Printf.sprintf " %s %s %s %d %d" (zs g.s_id) (zs g.s_start) (zs g.s_size)
+                                             (if g.s_be then 1 else 0) (int_of_kind g.s_kind))) sigs;
+  Buffer.add_string b (Printf.sprintf " F %d" (List.length fs));
+  List.iter (fun f -> Buffer.add_string b (Printf.sprintf " %s %s %s %s %s"
+                                             (zs f.f_sig) (zs f.f_byte) (zs f.f_mask) (zs f.f_len) (zs f.f_off))) fs;
+  Buffer.contents b
+
+let trace_main file =
+  let ic = open_in file in
+  let st = ref (new_message Z0) in
+  let steps = ref 0 and bad = ref 0 and hists = ref 0 in
+  (try while true do
+      let line = input_line ic in
+      match String.split_on_char ' ' line with
+      | ["H"; bits] -> incr hists; st := new_message (cz bits)
+      | "S" :: _ ->
+        incr steps;
+        let opx, pre, obs = match Str.split (Str.regexp_string " ; ") line with
+          | [a; b; c] -> a, b, c | _ -> failwith ("bad trace line " ^ line) in
+        let op = List.tl (String.split_on_char ' ' opx) in
+        let tok = ref (String.split_on_char ' ' obs) in
+        let next () = match !tok with x :: tl -> tok := tl; x | [] -> failwith "short trace line" in
+        ignore (next ());
+        let obe = next () = "1" in
+        let obits = next () in
+        let n = int_of_string (next ()) in
+        let osigs = List.init n (fun _ ->
+            let id = next () in let sta = next () in let sz = next () in let be = next () in let k = next () in
+            { s_id = cz id; s_start = cz sta; s_size = cz sz; s_be = (be = "1"); s_kind = kind_of_int k }) in
+        let find_obs id = List.find_opt (fun g -> g.s_id = id) osigs in
+        let in_model id = List.exists (fun g -> g.s_id = id) (m_sigs !st) in
+        let pre_be = (pre = "1") in
+        (match op with
+         | ["BO"; b] -> st := step !st (OSetByteOrder (b = "1"))
+         | ["AP"; k] ->
+           (match find_obs (cz k) with
+            | Some g when not (in_model (cz k)) -> st := step !st (OAppend (g.s_id, g.s_size, g.s_kind, pre_be))
+            | _ -> ())
+         | ["IN"; k; _] ->
+           (match find_obs (cz k) with
+            | Some g when not (in_model (cz k)) -> st := step !st (OInsert (g.s_id, g.s_start, g.s_size, g.s_kind, pre_be))
+            | _ -> ())
+         | ["RM"; k] -> if in_model (cz k) && find_obs (cz k) = None then st := step !st (ORemove (cz k))
+         | "SZ" :: _ -> if zs (m_bits !st) <> obits then st := step !st (OResize (cz obits))
+         | _ -> ());
+        (* every remaining difference of geometry is a size / position edit of a placed signal *)
+        List.iter (fun g ->
+            match List.find_opt (fun x -> x.s_id = g.s_id) (m_sigs !st) with
+            | Some x when x.s_start <> g.s_start || x.s_size <> g.s_size ->
+              st := step !st (OSetGeom (g.s_id, g.s_start, g.s_size))
+            | _ -> ()) osigs;
+        let m = show_state (m_be !st) (zs (m_bits !st)) (m_sigs !st) (filters !st) in
+        if m <> obs then begin
+          incr bad;
+          if !bad <= 30 then Printf.printf "TRACE-MISMATCH step %d op=%s pre=%s\n  impl =%s\n  model=%s\n" !steps opx pre obs m;
+          (* resynchronise on the observed state so that one disagreement is counted once *)
+          st := { m_be = obe; m_bits = cz obits; m_sigs = osigs; m_cache = m_cache !st }
+        end
+      | _ -> ()
+    done with End_of_file -> ());
+  Printf.printf "TRACE HISTORIES %d STEPS %d MISMATCHES %d\n" !hists !steps !bad
+
 let () =
+  if Array.length Sys.argv > 2 && Sys.argv.(1) = "--trace" then (trace_main Sys.argv.(2); exit 0);
   let ic = open_in Sys.argv.(1) in
   let n = ref 0 and bad = ref 0 and decs = ref 0 in
   (try while true do
